@@ -74,8 +74,11 @@ def detect(sid, tier='quick', pids=None):
     assert out.strip() == '', 'repo not clean: ' + out
     rc, out = sh('git -C /repo apply --whitespace=nowarn %s' % os.path.join(d, 'patch.diff'))
     assert rc == 0, out
+    saved = {}
     try:
         for pid in pids:
+            ev = os.path.join(VERIF, 'evidence', pid + '.json')
+            if os.path.exists(ev): saved[ev] = open(ev, 'rb').read()
             t = time.time()
             rc, out = sh('./check %s %s' % (pid, tier), cwd=VERIF, timeout=7200)
             lines = [l for l in out.split('\n') if l.startswith('VIOLATION') or l.startswith('  key=') or l.startswith('BROKEN') or l.startswith('KNOWN')]
@@ -84,6 +87,8 @@ def detect(sid, tier='quick', pids=None):
             for l in lines[:6]: print('   ', l[:300])
     finally:
         sh('git -C /repo checkout -- src include')
+        # evidence files must describe the unchanged tree: put back what a run on the patched tree overwrote
+        for ev, data in saved.items(): open(ev, 'wb').write(data)
     json.dump(meta, open(os.path.join(d, 'meta.json'), 'w'), indent=1)
 
 if __name__ == '__main__':
